@@ -11,6 +11,8 @@ CONSTANTS
   Bundles = {}
   Modes = {}
   MaxOps = 0
+  BodyOps = 0
+  FinalStep = ""
   Budget = 0
   MaxSteps = 0
   InitOps <- NoOps
